@@ -48,7 +48,7 @@ class Rule:
                 if isinstance(doc, list):
                     doc = {"description": doc, "examples": []}
 
-            elif isinstance(doc["description"], str):
+            elif isinstance(doc.get("description"), str):
                 doc["description"] = [doc["description"]]
 
             if "description" not in doc:
